@@ -59,27 +59,55 @@ Qed.
 Lemma skey_eqb_refl a : skey_eqb a a = true.
 Proof. apply skey_eqb_eq. reflexivity. Qed.
 
-(* ------------------------------------------------------------------ the store under edits *)
-Lemma slookup_sedit_same k st : slookup k (sedit k st) = option_map N.succ (slookup k st).
+(* ------------------------------------------------------------------ the store under edits and deletions *)
+Lemma slookup_sdelete_same k st : slookup k (sdelete k st) = None.
 Proof.
-  induction st as [|[k' v] r IH]; cbn; [reflexivity|].
+  induction st as [|[k' [v pr]] r IH]; cbn; [reflexivity|].
   destruct (skey_eqb k k') eqn:E; cbn; rewrite E; [reflexivity|exact IH].
 Qed.
 
-Lemma slookup_sedit_other k k' st : k' <> k -> slookup k' (sedit k st) = slookup k' st.
+Lemma slookup_sdelete_other k k' st : k' <> k -> slookup k' (sdelete k st) = slookup k' st.
 Proof.
-  intro Hn. induction st as [|[k2 v] r IH]; cbn; [reflexivity|].
+  intro Hn. induction st as [|[k2 [v pr]] r IH]; cbn; [reflexivity|].
   destruct (skey_eqb k k2) eqn:E; cbn.
   - apply skey_eqb_eq in E. subst k2.
     destruct (skey_eqb k' k) eqn:E2; [apply skey_eqb_eq in E2; congruence|reflexivity].
   - destruct (skey_eqb k' k2); [reflexivity|exact IH].
 Qed.
 
-Lemma slookup_sedit_dom k k' st : slookup k' st <> None -> slookup k' (sedit k st) <> None.
+(* the version counter of an entry, present or not *)
+Fixpoint sversion (k : skey) (st : store) : option N :=
+  match st with
+  | [] => None
+  | (k', (v, _)) :: r => if skey_eqb k k' then Some v else sversion k r
+  end.
+
+Lemma sversion_sdelete k k' st : sversion k' (sdelete k st) = sversion k' st.
 Proof.
-  intro H. destruct (skey_eqb k' k) eqn:E.
-  - apply skey_eqb_eq in E. subst. rewrite slookup_sedit_same. destruct (slookup k st); cbn; congruence.
-  - rewrite slookup_sedit_other; [exact H|]. intro; subst. rewrite skey_eqb_refl in E. discriminate.
+  induction st as [|[k2 [v pr]] r IH]; cbn; [reflexivity|].
+  destruct (skey_eqb k k2) eqn:E; cbn; destruct (skey_eqb k' k2); auto.
+Qed.
+
+(* writing a text makes the entry present with a version never used before, also after a deletion *)
+Lemma slookup_sedit_same k st : slookup k (sedit k st) = option_map N.succ (sversion k st).
+Proof.
+  induction st as [|[k' [v pr]] r IH]; cbn; [reflexivity|].
+  destruct (skey_eqb k k') eqn:E; cbn; rewrite E; [reflexivity|exact IH].
+Qed.
+
+Lemma slookup_sedit_other k k' st : k' <> k -> slookup k' (sedit k st) = slookup k' st.
+Proof.
+  intro Hn. induction st as [|[k2 [v pr]] r IH]; cbn; [reflexivity|].
+  destruct (skey_eqb k k2) eqn:E; cbn.
+  - apply skey_eqb_eq in E. subst k2.
+    destruct (skey_eqb k' k) eqn:E2; [apply skey_eqb_eq in E2; congruence|reflexivity].
+  - destruct (skey_eqb k' k2); [reflexivity|exact IH].
+Qed.
+
+Lemma slookup_sversion k st v : slookup k st = Some v -> sversion k st = Some v.
+Proof.
+  induction st as [|[k' [v' pr]] r IH]; cbn; [discriminate|].
+  destruct (skey_eqb k k'); [destruct pr; [auto|discriminate]|exact IH].
 Qed.
 
 (* ------------------------------------------------------------------ LRU facts in terms of membership *)
@@ -174,11 +202,7 @@ Proof.
   destruct (do_get (st_cache s) (enc key)) as [cache1 [id|]] eqn:E; [|reflexivity].
   destruct (hget id (st_heap s)) as [cached|] eqn:Hg; [|reflexivity].
   specialize (Haw _ _ _ eq_refl Hg).
-  unfold up_to_date_sync, up_to_date. rewrite Haw.
-  destruct (auto_reload c); cbn [andb]; [|reflexivity].
-  destruct (detects c); cbn [negb orb]; [|reflexivity].
-  destruct (match slookup (t_src cached) (st_store s) with Some v0 => N.eqb v0 (t_ver cached) | None => false end);
-    reflexivity.
+  unfold up_to_date_sync, up_to_date. rewrite Haw. reflexivity.
 Qed.
 
 (* ------------------------------------------------------------------ the invariant *)
@@ -194,6 +218,7 @@ Section Transparent.
 
   Hypothesis Hok : keys_ok.
   Hypothesis Haw : awaitable_uptodate c = false.
+  Hypothesis Hmr : missing_raises c = false.
 
   (* what a non-caching loader returns for request g when the entry has version ver *)
   Definition fresh_tmpl (g : get) (ver : N) : tmpl :=
@@ -206,7 +231,7 @@ Section Transparent.
   Lemma base_load_fixed st m g :
     base_load fixed c st m (g_name g) (g_kw g) (g_ctx g) (make_globals c (g_globals g)) = fresh_load st g.
   Proof.
-    unfold base_load, fresh_load, fresh_tmpl, srckey.
+    unfold base_load, fresh_load, fresh_tmpl, CachingLoader.srckey.
     destruct (slookup _ st); [|reflexivity]. destruct m; cbn; rewrite ?Haw; reflexivity.
   Qed.
 
@@ -215,17 +240,17 @@ Section Transparent.
   Proof. unfold ref_get. rewrite base_load_fixed. unfold fresh_load. destruct (slookup _ st); reflexivity. Qed.
 
   (* every cache entry (k |-> object) was made for an admissible request g0 with that cache key, from g0's
-     source entry, under g0's name; its uptodate is a plain callable; its source entry still exists *)
-  Definition good (st : store) (k : N) (t : tmpl) : Prop :=
+     source entry, under g0's name; its uptodate is a plain callable *)
+  Definition good (k : N) (t : tmpl) : Prop :=
     exists g0, P g0 /\ k = enc (ckey g0) /\ t_src t = srckey g0 /\ t_name t = basename (g_name g0)
-               /\ t_awaitable t = false /\ slookup (t_src t) st <> None.
+               /\ t_awaitable t = false.
 
   Definition Inv (s : state) : Prop :=
     hbound (st_heap s) /\
     forall k id, In (k, id) (items (st_cache s)) ->
-                 exists t, hget id (st_heap s) = Some t /\ good (st_store s) k t.
+                 exists t, hget id (st_heap s) = Some t /\ good k t.
 
-  (* ... and, as long as nothing was edited, carries the current version *)
+  (* ... and, as long as no source was edited or deleted, carries the current version *)
   Definition Fresh (s : state) : Prop :=
     forall k id t, In (k, id) (items (st_cache s)) -> hget id (st_heap s) = Some t ->
                    slookup (t_src t) (st_store s) = Some (t_ver t).
@@ -236,8 +261,15 @@ Section Transparent.
   Lemma Fresh_init st : Fresh (init c st).
   Proof. intros k id t []. Qed.
 
-  Lemma good_with_globals st k t gl : good st k t -> good st k (with_globals t gl).
-  Proof. intros (g0 & H1 & H2 & H3 & H4 & H5 & H6). exists g0. cbn. auto 10. Qed.
+  Lemma good_with_globals k t gl : good k t -> good k (with_globals t gl).
+  Proof. intros (g0 & H1 & H2 & H3 & H4 & H5). exists g0. cbn. auto 10. Qed.
+
+  (* the uptodate check answers (it does not raise) *)
+  Lemma up_to_date_answers st t : exists b, up_to_date c st t = Ok b.
+  Proof.
+    unfold up_to_date, uptodate_call. rewrite Hmr. destruct (negb (detects c)); [eexists; reflexivity|].
+    destruct (slookup (t_src t) st); eexists; reflexivity.
+  Qed.
 
   Lemma step_get_eq s g :
     Inv s ->
@@ -249,7 +281,7 @@ Section Transparent.
       rewrite check_cache_sync_async.
       + apply cca_ext. apply base_load_fixed.
       + intros cache1 id t E Hg. apply do_get_some in E. destruct E as [E _].
-        destruct (Hc _ _ E) as (t' & Ht' & g0 & _ & _ & _ & _ & A & _). congruence.
+        destruct (Hc _ _ E) as (t' & Ht' & g0 & _ & _ & _ & _ & A). congruence.
     - unfold mixin_load_async. cbn [fixed v_async_swap]. fold (ckey g).
       apply cca_ext. apply base_load_fixed.
   Qed.
@@ -269,7 +301,7 @@ Section Transparent.
     - intros k id Hin. cbn in Hin. apply do_set_In in Hin. destruct Hin as [E|Hin].
       + inversion E; subst. exists (fresh_tmpl g ver). split.
         * cbn. rewrite Z.eqb_refl. reflexivity.
-        * exists g. cbn. repeat split; auto. rewrite Hs. discriminate.
+        * exists g. cbn. repeat split; auto.
       + apply Hsub in Hin. destruct (Hc _ _ Hin) as (t & Ht & Hg). exists t. split; [|exact Hg].
         cbn. destruct (Z.eqb_spec id (hfresh (st_heap s))) as [->|]; [|exact Ht].
         rewrite hget_fresh in Ht by exact Hb. discriminate.
@@ -280,15 +312,30 @@ Section Transparent.
         * cbn. eapply HF; eauto.
   Qed.
 
-  (* One request.  The response is what a non-caching loader returns, except possibly for the version of
-     the source; the version is the current one under auto-reload with a working uptodate check, and
-     whenever every cached template is current. *)
+  (* a failed load leaves the objects alone; the cache may have been reordered *)
+  Lemma fail_path s cache1 :
+    Inv s -> (forall x, In x (items cache1) -> In x (items (st_cache s))) ->
+    let s' := {| st_cache := cache1; st_heap := st_heap s; st_store := st_store s |} in
+    Inv s' /\ (Fresh s -> Fresh s').
+  Proof.
+    intros [Hb Hc] Hsub s'. split; [split; [exact Hb|]|].
+    - intros k id Hin. apply Hsub in Hin. exact (Hc _ _ Hin).
+    - intros HF k id t Hin Hg. apply Hsub in Hin. exact (HF _ _ _ Hin Hg).
+  Qed.
+
+  (* One request.  A template returned is what a non-caching loader returns for this request, except
+     possibly for the version of the source; an error is returned only when the source is not there.
+     Under auto-reload with a working uptodate check, and whenever every cached template is current, the
+     answer is exactly the non-caching one: the current version, or not-found for a removed source. *)
+  Definition stale_only (s : state) : Prop :=
+    (auto_reload c = true -> detects c = true -> False) /\ (Fresh s -> False).
+
   Lemma get_step s g :
     Inv s -> P g ->
     let '(s', r) := step fixed c s (Get g) in
     Inv s' /\ st_store s' = st_store s /\ (Fresh s -> Fresh s') /\
     match slookup (srckey g) (st_store s) with
-    | None => r = RE ENotFound
+    | None => r = RE ENotFound \/ (exists ver', r = RT (fresh_tmpl g ver') /\ stale_only s)
     | Some ver => exists ver', r = RT (fresh_tmpl g ver') /\
                                (auto_reload c = true -> detects c = true -> ver' = ver) /\
                                (Fresh s -> ver' = ver)
@@ -299,18 +346,14 @@ Section Transparent.
     destruct (do_get (st_cache s) (enc (ckey g))) as [cache1 [id|]] eqn:E.
     - (* the key is cached *)
       apply do_get_some in E. destruct E as [Ein Hsub].
-      destruct (Hc _ _ Ein) as (cached & Hget & g0 & HP0 & Hk & Hsrc & Hname & Hawt & Hdom).
+      destruct (Hc _ _ Ein) as (cached & Hget & g0 & HP0 & Hk & Hsrc & Hname & Hawt).
       rewrite Hget.
       apply enc_inj in Hk. pose proof (Hok _ _ HP HP0 Hk) as Hs.
       assert (Hn : g_name g = g_name g0) by (apply (f_equal fst) in Hs; exact Hs).
       rewrite <- Hs in Hsrc. rewrite <- Hn in Hname.
-      unfold fresh_load.
-      destruct (slookup (srckey g) (st_store s)) as [ver|] eqn:Hver; [|rewrite Hsrc in Hdom; congruence].
-      destruct (auto_reload c && negb (up_to_date c (st_store s) cached)) eqn:Hre.
-      + (* reloaded *)
-        destruct (load_path s g cache1 ver HI HP Hsub Hver) as [HI' HF'].
-        split; [exact HI'|]. split; [reflexivity|]. split; [exact HF'|].
-        exists ver. auto.
+      assert (Hup : exists b, (if auto_reload c then up_to_date c (st_store s) cached else Ok true) = Ok b).
+      { destruct (auto_reload c); [apply up_to_date_answers|eexists; reflexivity]. }
+      destruct Hup as [b Hup]. rewrite Hup. destruct b.
       + (* served from the cache, with this request's globals *)
         cbn [fixed v_globals_if].
         assert (Hc' : with_globals cached (make_globals c (g_globals g)) = fresh_tmpl g (t_ver cached)).
@@ -327,39 +370,46 @@ Section Transparent.
              destruct (Z.eqb_spec id' id) as [->|].
              ++ inversion Hg; subst. cbn. eapply HF; eauto.
              ++ cbn. eapply HF; eauto.
-          -- exists (t_ver cached). rewrite Hc'. split; [reflexivity|]. split.
-             ++ intros Har Hdet. rewrite Har in Hre. cbn in Hre. apply negb_false_iff in Hre.
-                unfold up_to_date in Hre. rewrite Hdet, Hsrc, Hver in Hre. cbn in Hre. lia.
-             ++ intro HF. specialize (HF _ _ _ Ein Hget). rewrite Hsrc, Hver in HF. congruence.
+          -- assert (HA : auto_reload c = true -> detects c = true ->
+                          slookup (srckey g) (st_store s) = Some (t_ver cached)).
+             { intros Har Hdet. rewrite Har in Hup. unfold up_to_date, uptodate_call in Hup.
+               rewrite Hdet, Hmr, Hsrc in Hup. cbn in Hup.
+               destruct (slookup (srckey g) (st_store s)) as [v|]; [|discriminate].
+               inversion Hup as [Hv]. apply N.eqb_eq in Hv. congruence. }
+             assert (HB : Fresh s -> slookup (srckey g) (st_store s) = Some (t_ver cached)).
+             { intro HF. specialize (HF _ _ _ Ein Hget). rewrite Hsrc in HF. exact HF. }
+             rewrite Hc'. destruct (slookup (srckey g) (st_store s)) as [ver|] eqn:Hver.
+             ++ exists (t_ver cached). split; [reflexivity|]. split.
+                ** intros Har Hdet. specialize (HA Har Hdet). congruence.
+                ** intro HF. specialize (HB HF). congruence.
+             ++ right. exists (t_ver cached). split; [reflexivity|]. split.
+                ** intros Har Hdet. specialize (HA Har Hdet). discriminate.
+                ** intro HF. specialize (HB HF). discriminate.
+      + (* not up to date: load again *)
+        unfold fresh_load. destruct (slookup (srckey g) (st_store s)) as [ver|] eqn:Hver.
+        * destruct (load_path s g cache1 ver HI HP Hsub Hver) as [HI' HF'].
+          split; [exact HI'|]. split; [reflexivity|]. split; [exact HF'|]. exists ver. auto.
+        * destruct (fail_path s cache1 HI Hsub) as [HI' HF'].
+          split; [exact HI'|]. split; [reflexivity|]. split; [exact HF'|]. left; reflexivity.
     - (* KeyError: load and store *)
       apply do_get_none in E. subst cache1. unfold fresh_load.
       destruct (slookup (srckey g) (st_store s)) as [ver|] eqn:Hver.
       + destruct (load_path s g (st_cache s) ver HI HP (fun _ H => H) Hver) as [HI' HF'].
         split; [exact HI'|]. split; [reflexivity|]. split; [exact HF'|]. exists ver. auto.
-      + split; [exact HI|]. split; [reflexivity|]. split; [intro H; exact H|reflexivity].
+      + split; [exact HI|]. split; [reflexivity|]. split; [intro H; exact H|left; reflexivity].
   Qed.
 
-  Lemma edit_step s name ns :
-    Inv s -> Inv (fst (step fixed c s (Edit name ns))).
+  (* an edit, a deletion, a re-creation touch neither the cache nor the objects *)
+  Lemma change_step s r : (forall g, r <> Get g) -> Inv s -> Inv (fst (step fixed c s r)).
   Proof.
-    intros [Hb Hc]. split; [exact Hb|]. cbn. intros k id Hin.
-    destruct (Hc _ _ Hin) as (t & Ht & g0 & H1 & H2 & H3 & H4 & H5 & H6).
-    exists t. split; [exact Ht|]. exists g0. repeat split; auto. apply slookup_sedit_dom; exact H6.
+    intros Hr [Hb Hc]. destruct r as [g|name ns|name ns]; [exfalso; exact (Hr g eq_refl)| |]; (split; [exact Hb|exact Hc]).
   Qed.
 
   Definition all_gets (rs : list request) : Prop := forall g, In (Get g) rs -> P g.
 
+  (* a history in which no source changes: neither edits nor deletions *)
   Fixpoint no_edits (rs : list request) : Prop :=
-    match rs with [] => True | Get _ :: r => no_edits r | Edit _ _ :: _ => False end.
-
-  (* responses agree except possibly in the version of the source *)
-  Definition sim (a b : response) : Prop :=
-    match a, b with
-    | RT x, RT y => t_name x = t_name y /\ t_src x = t_src y /\ t_globals x = t_globals y /\ t_awaitable x = t_awaitable y
-    | RE x, RE y => x = y
-    | RDone, RDone => True
-    | _, _ => False
-    end.
+    match rs with [] => True | Get _ :: r => no_edits r | _ => False end.
 
   Theorem run_auto_reload rs : forall s,
     Inv s -> all_gets rs -> auto_reload c = true -> detects c = true ->
@@ -367,13 +417,16 @@ Section Transparent.
   Proof.
     induction rs as [|r rs IH]; intros s HI HA Har Hdet; [reflexivity|].
     assert (HA' : all_gets rs) by (intros g Hg; apply HA; right; exact Hg).
-    destruct r as [g|name ns].
+    destruct r as [g|name ns|name ns].
     - cbn [run ref_run]. pose proof (get_step s g HI (HA g (or_introl eq_refl))) as H.
       destruct (step fixed c s (Get g)) as [s' r]. destruct H as (HI' & Hst & _ & Hr).
       rewrite ref_get_fixed. rewrite <- Hst. f_equal; [|apply IH; auto].
-      rewrite Hst. destruct (slookup (srckey g) (st_store s)); [|exact Hr].
-      destruct Hr as (ver' & -> & Hv & _). rewrite (Hv Har Hdet). reflexivity.
-    - cbn [run ref_run]. pose proof (edit_step s name ns HI) as HI'.
+      rewrite Hst. destruct (slookup (srckey g) (st_store s)).
+      + destruct Hr as (ver' & -> & Hv & _). rewrite (Hv Har Hdet). reflexivity.
+      + destruct Hr as [Hr|(ver' & _ & Hf & _)]; [exact Hr|destruct (Hf Har Hdet)].
+    - cbn [run ref_run]. pose proof (change_step s (Edit name ns) ltac:(discriminate) HI) as HI'.
+      cbn [step fst] in *. f_equal. apply (IH _ HI' HA' Har Hdet).
+    - cbn [run ref_run]. pose proof (change_step s (Delete name ns) ltac:(discriminate) HI) as HI'.
       cbn [step fst] in *. f_equal. apply (IH _ HI' HA' Har Hdet).
   Qed.
 
@@ -383,35 +436,74 @@ Section Transparent.
   Proof.
     induction rs as [|r rs IH]; intros s HI HF HA Hne; [reflexivity|].
     assert (HA' : all_gets rs) by (intros g Hg; apply HA; right; exact Hg).
-    destruct r as [g|name ns]; [|destruct Hne].
+    destruct r as [g|name ns|name ns]; [|destruct Hne|destruct Hne].
     cbn [run ref_run]. pose proof (get_step s g HI (HA g (or_introl eq_refl))) as H.
     destruct (step fixed c s (Get g)) as [s' r]. destruct H as (HI' & Hst & HF' & Hr).
     rewrite ref_get_fixed. rewrite <- Hst. f_equal; [|apply IH; auto].
-    rewrite Hst. destruct (slookup (srckey g) (st_store s)); [|exact Hr].
-    destruct Hr as (ver' & -> & _ & Hv). rewrite (Hv HF). reflexivity.
+    rewrite Hst. destruct (slookup (srckey g) (st_store s)).
+    - destruct Hr as (ver' & -> & _ & Hv). rewrite (Hv HF). reflexivity.
+    - destruct Hr as [Hr|(ver' & _ & _ & Hf)]; [exact Hr|destruct (Hf HF)].
   Qed.
 
-  Theorem run_sim rs : forall s,
-    Inv s -> all_gets rs -> Forall2 sim (run fixed c s rs) (ref_run c (st_store s) rs).
+  (* what holds of every response in every history, whatever auto_reload is and whatever was edited or
+     deleted: a template returned is the one a non-caching loader builds for THIS request (name, source
+     entry, globals) from some version of that entry; an error is returned only where the non-caching
+     loader returns the same error *)
+  Definition resp_ok (rq : request) (refr r : response) : Prop :=
+    match rq with
+    | Get g => match r with
+               | RT x => exists ver, x = fresh_tmpl g ver
+               | RE e => refr = RE e
+               | _ => False
+               end
+    | _ => r = RDone
+    end.
+
+  Fixpoint all_ok (st : store) (rs : list request) (out : list response) : Prop :=
+    match rs, out with
+    | [], [] => True
+    | rq :: rs', r :: out' =>
+        resp_ok rq (match rq with Get g => ref_get c st g | _ => RDone end) r /\
+        all_ok (match rq with
+                | Get _ => st
+                | Edit n ns => sedit (n, ns) st
+                | Delete n ns => sdelete (n, ns) st
+                end) rs' out'
+    | _, _ => False
+    end.
+
+  Theorem run_all_ok rs : forall s,
+    Inv s -> all_gets rs -> all_ok (st_store s) rs (run fixed c s rs).
   Proof.
-    induction rs as [|r rs IH]; intros s HI HA; [constructor|].
+    induction rs as [|r rs IH]; intros s HI HA; [exact I|].
     assert (HA' : all_gets rs) by (intros g Hg; apply HA; right; exact Hg).
-    destruct r as [g|name ns].
-    - cbn [run ref_run]. pose proof (get_step s g HI (HA g (or_introl eq_refl))) as H.
+    destruct r as [g|name ns|name ns].
+    - cbn [run all_ok]. pose proof (get_step s g HI (HA g (or_introl eq_refl))) as H.
       destruct (step fixed c s (Get g)) as [s' r]. destruct H as (HI' & Hst & _ & Hr).
-      rewrite ref_get_fixed. constructor; [|rewrite <- Hst; apply IH; auto].
-      destruct (slookup (srckey g) (st_store s)); [|rewrite Hr; reflexivity].
-      destruct Hr as (ver' & -> & _). cbn. auto.
-    - cbn [run ref_run]. pose proof (edit_step s name ns HI) as HI'.
-      cbn [step fst] in *. constructor; [exact I|]. apply (IH _ HI' HA').
+      split; [|rewrite <- Hst; apply IH; auto].
+      rewrite ref_get_fixed. cbn [resp_ok]. destruct (slookup (srckey g) (st_store s)).
+      + destruct Hr as (ver' & -> & _). eexists; reflexivity.
+      + destruct Hr as [->|(ver' & -> & _)]; [reflexivity|eexists; reflexivity].
+    - cbn [run all_ok]. pose proof (change_step s (Edit name ns) ltac:(discriminate) HI) as HI'.
+      cbn [step fst] in *. split; [reflexivity|]. apply (IH _ HI' HA').
+    - cbn [run all_ok]. pose proof (change_step s (Delete name ns) ltac:(discriminate) HI) as HI'.
+      cbn [step fst] in *. split; [reflexivity|]. apply (IH _ HI' HA').
+  Qed.
+
+  Lemma all_ok_no_internal rs : forall st out, all_ok st rs out -> ~ In RInternal out.
+  Proof.
+    induction rs as [|rq rs IH]; intros st [|r out] H; cbn in H; try tauto.
+    destruct H as [H1 H2]. intros [->|Hin]; [|exact (IH _ _ H2 Hin)].
+    destruct rq; cbn in H1; [exact H1|discriminate|discriminate].
   Qed.
 End Transparent.
 
 (* ------------------------------------------------------------------ the hypothesis on cache keys, decidably *)
 Lemma gets_of_In g rs : In (Get g) rs <-> In g (gets_of rs).
 Proof.
-  induction rs as [|[g'|n ns] rs IH]; cbn; [tauto| |].
+  induction rs as [|[g'|n ns|n ns] rs IH]; cbn; [tauto| | |].
   - rewrite <- IH. split; intros [H|H]; auto; left; congruence.
+  - rewrite <- IH. split; [intros [H|H]; [discriminate|exact H]|auto].
   - rewrite <- IH. split; [intros [H|H]; [discriminate|exact H]|auto].
 Qed.
 
@@ -469,45 +561,68 @@ Qed.
 
 (* ------------------------------------------------------------------ the theorems, from an empty cache *)
 Theorem transparent_auto_reload c st rs :
-  awaitable_uptodate c = false -> keys_injective c rs ->
+  awaitable_uptodate c = false -> missing_raises c = false -> keys_injective c rs ->
   auto_reload c = true -> detects c = true ->
   run fixed c (init c st) rs = ref_run c st rs.
 Proof.
-  intros Haw Hk Har Hdet.
-  exact (run_auto_reload c (fun g => In (Get g) rs) Hk Haw rs (init c st) (Inv_init c _ st) (fun g H => H) Har Hdet).
+  intros Haw Hmr Hk Har Hdet.
+  exact (run_auto_reload c (fun g => In (Get g) rs) Hk Haw Hmr rs (init c st) (Inv_init c _ st) (fun g H => H) Har Hdet).
 Qed.
 
 Theorem transparent_no_edits c st rs :
-  awaitable_uptodate c = false -> keys_injective c rs -> no_edits rs ->
+  awaitable_uptodate c = false -> missing_raises c = false -> keys_injective c rs -> no_edits rs ->
   run fixed c (init c st) rs = ref_run c st rs.
 Proof.
-  intros Haw Hk Hne.
-  exact (run_no_edits c (fun g => In (Get g) rs) Hk Haw rs (init c st) (Inv_init c _ st) (Fresh_init c st)
+  intros Haw Hmr Hk Hne.
+  exact (run_no_edits c (fun g => In (Get g) rs) Hk Haw Hmr rs (init c st) (Inv_init c _ st) (Fresh_init c st)
                       (fun g H => H) Hne).
 Qed.
 
 Theorem no_substitution c st rs :
-  awaitable_uptodate c = false -> keys_injective c rs ->
-  Forall2 sim (run fixed c (init c st) rs) (ref_run c st rs).
+  awaitable_uptodate c = false -> missing_raises c = false -> keys_injective c rs ->
+  all_ok c st rs (run fixed c (init c st) rs).
 Proof.
-  intros Haw Hk.
-  exact (run_sim c (fun g => In (Get g) rs) Hk Haw rs (init c st) (Inv_init c _ st) (fun g H => H)).
-Qed.
-
-(* the specification never fails internally, hence neither does the cache *)
-Lemma ref_run_no_internal c st rs : awaitable_uptodate c = false -> ~ In RInternal (ref_run c st rs).
-Proof.
-  intro Haw. revert st. induction rs as [|[g|n ns] rs IH]; intros st; cbn; [tauto| |].
-  - intros [H|H]; [|exact (IH _ H)]. rewrite (ref_get_fixed c Haw) in H. destruct (slookup _ st); discriminate.
-  - intros [H|H]; [discriminate|exact (IH _ H)].
-Qed.
-
-Lemma sim_no_internal l1 l2 : Forall2 sim l1 l2 -> ~ In RInternal l1.
-Proof.
-  induction 1 as [|a b l1 l2 Hab _ IH]; [tauto|].
-  intros [->|H]; [destruct b; exact Hab|exact (IH H)].
+  intros Haw Hmr Hk.
+  exact (run_all_ok c (fun g => In (Get g) rs) Hk Haw Hmr rs (init c st) (Inv_init c _ st) (fun g H => H)).
 Qed.
 
 Theorem never_internal c st rs :
-  awaitable_uptodate c = false -> keys_injective c rs -> ~ In RInternal (run fixed c (init c st) rs).
-Proof. intros Haw Hk. eapply sim_no_internal. apply no_substitution; eauto. Qed.
+  awaitable_uptodate c = false -> missing_raises c = false -> keys_injective c rs ->
+  ~ In RInternal (run fixed c (init c st) rs).
+Proof. intros Haw Hmr Hk. eapply all_ok_no_internal. apply no_substitution; eauto. Qed.
+
+(* ------------------------------------------------------------------ deletion and re-creation, at the specification *)
+(* (the caching loader equals the specification by transparent_auto_reload) *)
+Theorem deleted_is_not_found c st g :
+  awaitable_uptodate c = false ->
+  ref_get c (sdelete (srckey c g) st) g = RE ENotFound.
+Proof. intro Haw. rewrite (ref_get_fixed c Haw). rewrite slookup_sdelete_same. reflexivity. Qed.
+
+Theorem recreated_is_picked_up c st g v :
+  awaitable_uptodate c = false -> sversion (srckey c g) st = Some v ->
+  ref_get c (sedit (srckey c g) (sdelete (srckey c g) st)) g = RT (fresh_tmpl c g (N.succ v)).
+Proof.
+  intros Haw Hv. rewrite (ref_get_fixed c Haw). rewrite slookup_sedit_same, sversion_sdelete, Hv. reflexivity.
+Qed.
+
+(* the whole story in one history: load, delete, ask, re-create, ask -- whatever happens in between (rs1, rs2, rs3:
+   any requests that leave this source alone are covered by transparent_auto_reload; here the minimal one) *)
+Theorem delete_recreate_history c st g v :
+  awaitable_uptodate c = false -> missing_raises c = false -> auto_reload c = true -> detects c = true ->
+  slookup (srckey c g) st = Some v ->
+  run fixed c (init c st)
+      [Get g; Delete (fst (srckey c g)) (snd (srckey c g)); Get g; Edit (fst (srckey c g)) (snd (srckey c g)); Get g] =
+  [RT (fresh_tmpl c g v); RDone; RE ENotFound; RDone; RT (fresh_tmpl c g (N.succ v))].
+Proof.
+  intros Haw Hmr Har Hdet Hv.
+  rewrite transparent_auto_reload; auto.
+  - cbn [ref_run]. rewrite <- surjective_pairing.
+    rewrite (ref_get_fixed c Haw st), Hv.
+    rewrite deleted_is_not_found by exact Haw.
+    rewrite (recreated_is_picked_up c st g v Haw (slookup_sversion _ _ _ Hv)). reflexivity.
+  - intros g1 g2 H1 H2 _.
+    assert (E : forall x, In (Get x) [Get g; Delete (fst (srckey c g)) (snd (srckey c g)); Get g;
+                                      Edit (fst (srckey c g)) (snd (srckey c g)); Get g] -> x = g).
+    { intros x Hx. cbn in Hx. repeat (destruct Hx as [Hx|Hx]; [try discriminate; inversion Hx; reflexivity|]). destruct Hx. }
+    rewrite (E _ H1), (E _ H2). reflexivity.
+Qed.
